@@ -438,6 +438,7 @@ func (c *streamCtx) histShapes(prop string) []func(v int) *histSpec {
 		"C12":  {"two-groups", "transient-failure"},
 		"C15":  {"repeated-scale-down", "seconds-apart", "external-taints", "double-fault", "restart", "cooldown", "cordon-swap"},
 		"C19":  {"lister-lag", "transient-failure", "taint-wait-reap", "two-groups"},
+		"C13S": {"cordon-annotate", "cordon-swap", "repeated-scale-down"},
 		"C05S": {"node-size-change", "from-zero", "node-size-change", "restart", "cooldown"},
 		"C20":  {"transient-failure", "lister-lag", "external-taints", "constructed-earlier", "from-zero"},
 	}
